@@ -45,6 +45,59 @@ pub fn fixed_cases() -> Vec<Xs> {
 // shapes weighted towards skewed (both signs), bimodal, outlier, two-point, progressions
 static SHAPES: [usize; 16] = [2, 3, 3, 10, 10, 4, 4, 5, 6, 6, 7, 11, 1, 8, 13, 13];
 
+/// Skewness/Kurtosis of two summaries with bit-identical means, merged: the arithmetic
+/// coincidence delta == 0 (shards of identical composition, periodic data) judged with the same
+/// envelope. This is C02's subject; it is repeated here because the seeded change C03-d sits in
+/// Skewness::merge / Kurtosis::merge and only shows for equal means.
+pub struct EqualMeanShards;
+impl Check for EqualMeanShards {
+    type Case = Xs;
+    fn name(&self) -> &'static str {
+        "merged_equal_mean_shards"
+    }
+    fn fp(&self, c: &Xs, h: &mut Fp) {
+        h.fs(&c.xs);
+    }
+    fn test(&self, c: &Xs, o: &mut Obs) -> TestResult {
+        use crate::types::Uni;
+        use average::Merge;
+        let n = c.xs.len();
+        if n < 4 {
+            o.discarded = Some("fewer than four observations");
+            return Ok(());
+        }
+        let (l, r) = c.xs.split_at(n / 2);
+        let (ml, mr): (average::Mean, average::Mean) = (l.iter().collect(), r.iter().collect());
+        if ml.mean().to_bits() != mr.mean().to_bits() {
+            o.discarded = Some("halves do not have bit-identical means");
+            return Ok(());
+        }
+        let ex = match c01_gate(&c.xs, 4, 2, o) {
+            Some(e) => e,
+            None => return Ok(()),
+        };
+        o.nontrivial = true;
+        let mut s: Skewness = l.iter().collect();
+        s.merge(&r.iter().collect());
+        s.judge(&ex, o)?;
+        let mut k: Kurtosis = l.iter().collect();
+        k.merge(&r.iter().collect());
+        k.judge(&ex, o)?;
+        // and continued by adds after the merge
+        let mut k2 = k.clone();
+        let mut all = c.xs.clone();
+        for &x in l.iter().take(3) {
+            Uni::add(&mut k2, x);
+            all.push(x);
+        }
+        let ex2 = exact_moments(&all, 4);
+        if !ex2.zero_spread {
+            k2.judge(&ex2, o)?;
+        }
+        Ok(())
+    }
+}
+
 pub fn run(cx: &Ctx) {
     cx.set_rule("cases = data sets with n >= 2 and non-zero spread, shapes weighted towards skewed (exponential, log-normal, negative heavy tail), two-point, bimodal, single-outlier and arithmetic progressions, offsets up to 1e9 spreads, fed one observation at a time to Skewness and Kurtosis; skewness(), kurtosis() and the re-exported mean/variance accessors judged against exact m3/m2^1.5, m4/m2^2-3 with the DESIGN.md 4.1 envelopes. Non-trivial = |exact skewness| > 0.1 (Kurtosis: or |excess kurtosis| > 0.1); distinct = hash of the sequence bits");
     cx.assume("exact oracle and envelopes as in C01");
@@ -58,6 +111,21 @@ pub fn run(cx: &Ctx) {
     cx.label("fixed");
     cx.run_list(&skew_check(), fixed_cases(), "fixed two-point/outlier/progression family");
     cx.run_list(&kurt_check(), fixed_cases(), "fixed two-point/outlier/progression family");
+    cx.label("equal-mean-shards");
+    {
+        // all sequences of length 4, 6, 8 over {0, 1, 3} (x 2 placements); only those whose halves have equal means are judged
+        let alpha = [0.0, 1.0, 3.0];
+        let mut cases = Vec::new();
+        for len in [4usize, 6, 8] {
+            for i in 0..3u64.pow(len as u32) {
+                let xs = super::c05::alphabet_stream(&alpha, len, i);
+                cases.push(Xs { xs: xs.iter().map(|x| 2.5 * x - 1.0).collect() });
+                cases.push(Xs { xs });
+            }
+        }
+        let total = cases.len() as u64;
+        cx.run_enum(&EqualMeanShards, total, |i| Some(cases[i as usize].clone()), "all sequences of length 4, 6, 8 over a 3-value alphabet (two affine images), halves merged when their means are bit-identical");
+    }
     if cx.thorough() {
         cx.label("search");
         cx.run_climb(&skew_check(), climb_starts(cx, 256, 0xC03), 6000, mutate_xs, "hill-climb 256 x 6000");
@@ -70,6 +138,7 @@ pub fn replay(check: &str, case: &serde_json::Value) -> Option<Result<(), String
     match check {
         "skewness_stream" => Some(replay_case(&skew_check(), case)),
         "kurtosis_stream" => Some(replay_case(&kurt_check(), case)),
+        "merged_equal_mean_shards" => Some(replay_case(&EqualMeanShards, case)),
         _ => None,
     }
 }
